@@ -156,6 +156,113 @@ type recs struct {
 	ba map[*ArgDecl]func() []string
 }
 
+// buildApp declares the whole application on a fresh cli.App (environment variables backing options are set here
+// unless the app is Shared) and returns it together with the recorders
+func buildApp(a *App, o *Obs, setEnv *[]string) (*cli.Cli, map[int]*recs) {
+	app := cli.App(a.Root.Aliases[0], "desc")
+	app.ErrorHandling = a.Policy
+	if a.Version {
+		app.Version("V version", "ver-1.2.3")
+	}
+	all := map[int]*recs{}
+	var build func(c *cli.Cmd, t *Cmd)
+	build = func(c *cli.Cmd, t *Cmd) {
+		rs := &recs{o: map[*OptDecl]*Rec{}, a: map[*ArgDecl]*Rec{}, sbo: map[*OptDecl]*bool{}, sba: map[*ArgDecl]*bool{}, bo: map[*OptDecl]func() []string{}, ba: map[*ArgDecl]func() []string{}}
+		all[t.ID] = rs
+		for i, od := range t.Prog.Opts {
+			env := ""
+			if od.EnvSet {
+				env = envName(t.ID, i, od)
+				if !a.Shared {
+					os.Setenv(env, EnvValue(od))
+					*setEnv = append(*setEnv, env)
+				}
+			}
+			sb := new(bool)
+			rs.sbo[od] = sb
+			name := strings.Join(od.Names, " ")
+			if a.Builtin {
+				switch {
+				case od.Int && od.Multi:
+					p := c.Ints(cli.IntsOpt{Name: name, EnvVar: env, SetByUser: sb})
+					rs.bo[od] = func() []string { return intsStr(*p) }
+				case od.Int:
+					p := c.Int(cli.IntOpt{Name: name, EnvVar: env, SetByUser: sb})
+					rs.bo[od] = func() []string { return []string{fmt.Sprint(*p)} }
+				case od.Flag:
+					p := c.Bool(cli.BoolOpt{Name: name, EnvVar: env, SetByUser: sb})
+					rs.bo[od] = func() []string { return []string{fmt.Sprint(*p)} }
+				case od.Multi:
+					p := c.Strings(cli.StringsOpt{Name: name, EnvVar: env, SetByUser: sb})
+					rs.bo[od] = func() []string { return append([]string{}, *p...) }
+				default:
+					p := c.String(cli.StringOpt{Name: name, EnvVar: env, SetByUser: sb})
+					rs.bo[od] = func() []string { return []string{*p} }
+				}
+				continue
+			}
+			rc := &Rec{FlagLike: od.Flag}
+			rs.o[od] = rc
+			c.Var(cli.VarOpt{Name: name, Value: rc, EnvVar: env, SetByUser: sb})
+		}
+		for _, ad := range t.Prog.Args {
+			sb := new(bool)
+			rs.sba[ad] = sb
+			if a.Builtin && ad.Int {
+				p := c.Ints(cli.IntsArg{Name: ad.Name, SetByUser: sb})
+				rs.ba[ad] = func() []string { return intsStr(*p) }
+				continue
+			}
+			if a.Builtin {
+				p := c.Strings(cli.StringsArg{Name: ad.Name, SetByUser: sb})
+				rs.ba[ad] = func() []string { return append([]string{}, *p...) }
+				continue
+			}
+			rc := &Rec{}
+			rs.a[ad] = rc
+			c.Var(cli.VarArg{Name: ad.Name, Value: rc, SetByUser: sb})
+		}
+		// env values are Set at declaration time: only command-line values are to be recorded
+		for _, rc := range rs.o {
+			rc.Vals, rc.Clears = nil, 0
+		}
+		c.Spec = t.Prog.Spec
+		c.LongDesc = t.LongDesc
+		c.Hidden = t.Hidden
+		id := t.ID
+		hook := func(tag string, b Beh, snapshot bool) func() {
+			if b.Kind == BehAbsent {
+				return nil
+			}
+			name := fmt.Sprintf("%s%d", tag, id)
+			return func() {
+				o.Events = append(o.Events, name)
+				if snapshot {
+					o.Ran++
+					o.snapshot(a, all)
+				}
+				switch b.Kind {
+				case BehPanic:
+					pv := &PanicValue{Hook: name}
+					o.PanVals[name] = pv
+					panic(pv)
+				case BehExit:
+					cli.Exit(b.Code)
+				}
+			}
+		}
+		c.Before = hook("B", t.Before, false)
+		c.Action = hook("ACT", t.Action, true)
+		c.After = hook("A", t.After, false)
+		for _, k := range t.Kids {
+			k := k
+			c.Command(strings.Join(k.Aliases, " "), "d", func(sc *cli.Cmd) { build(sc, k) })
+		}
+	}
+	build(app.Cmd, a.Root)
+	return app, all
+}
+
 // Run builds and runs the application on a fresh goroutine
 func Run(a *App, argv []string) *Obs {
 	o := &Obs{Bind: map[int]Binding{}, SetBy: map[int]map[string]bool{}, PanVals: map[string]*PanicValue{}}
@@ -193,108 +300,8 @@ func Run(a *App, argv []string) *Obs {
 				o.Pan = v
 			}
 		}()
-		app := cli.App(a.Root.Aliases[0], "desc")
-		app.ErrorHandling = a.Policy
-		if a.Version {
-			app.Version("V version", "ver-1.2.3")
-		}
-		all := map[int]*recs{}
+		app, all := buildApp(a, o, &setEnv)
 		defer func() { o.Final = finalBind(all) }()
-		var build func(c *cli.Cmd, t *Cmd)
-		build = func(c *cli.Cmd, t *Cmd) {
-			rs := &recs{o: map[*OptDecl]*Rec{}, a: map[*ArgDecl]*Rec{}, sbo: map[*OptDecl]*bool{}, sba: map[*ArgDecl]*bool{}, bo: map[*OptDecl]func() []string{}, ba: map[*ArgDecl]func() []string{}}
-			all[t.ID] = rs
-			for i, od := range t.Prog.Opts {
-				env := ""
-				if od.EnvSet {
-					env = envName(t.ID, i, od)
-					if !a.Shared {
-						os.Setenv(env, EnvValue(od))
-						setEnv = append(setEnv, env)
-					}
-				}
-				sb := new(bool)
-				rs.sbo[od] = sb
-				name := strings.Join(od.Names, " ")
-				if a.Builtin {
-					switch {
-					case od.Int && od.Multi:
-						p := c.Ints(cli.IntsOpt{Name: name, EnvVar: env, SetByUser: sb})
-						rs.bo[od] = func() []string { return intsStr(*p) }
-					case od.Int:
-						p := c.Int(cli.IntOpt{Name: name, EnvVar: env, SetByUser: sb})
-						rs.bo[od] = func() []string { return []string{fmt.Sprint(*p)} }
-					case od.Flag:
-						p := c.Bool(cli.BoolOpt{Name: name, EnvVar: env, SetByUser: sb})
-						rs.bo[od] = func() []string { return []string{fmt.Sprint(*p)} }
-					case od.Multi:
-						p := c.Strings(cli.StringsOpt{Name: name, EnvVar: env, SetByUser: sb})
-						rs.bo[od] = func() []string { return append([]string{}, *p...) }
-					default:
-						p := c.String(cli.StringOpt{Name: name, EnvVar: env, SetByUser: sb})
-						rs.bo[od] = func() []string { return []string{*p} }
-					}
-					continue
-				}
-				rc := &Rec{FlagLike: od.Flag}
-				rs.o[od] = rc
-				c.Var(cli.VarOpt{Name: name, Value: rc, EnvVar: env, SetByUser: sb})
-			}
-			for _, ad := range t.Prog.Args {
-				sb := new(bool)
-				rs.sba[ad] = sb
-				if a.Builtin && ad.Int {
-					p := c.Ints(cli.IntsArg{Name: ad.Name, SetByUser: sb})
-					rs.ba[ad] = func() []string { return intsStr(*p) }
-					continue
-				}
-				if a.Builtin {
-					p := c.Strings(cli.StringsArg{Name: ad.Name, SetByUser: sb})
-					rs.ba[ad] = func() []string { return append([]string{}, *p...) }
-					continue
-				}
-				rc := &Rec{}
-				rs.a[ad] = rc
-				c.Var(cli.VarArg{Name: ad.Name, Value: rc, SetByUser: sb})
-			}
-			// env values are Set at declaration time: only command-line values are to be recorded
-			for _, rc := range rs.o {
-				rc.Vals, rc.Clears = nil, 0
-			}
-			c.Spec = t.Prog.Spec
-			c.LongDesc = t.LongDesc
-			c.Hidden = t.Hidden
-			id := t.ID
-			hook := func(tag string, b Beh, snapshot bool) func() {
-				if b.Kind == BehAbsent {
-					return nil
-				}
-				name := fmt.Sprintf("%s%d", tag, id)
-				return func() {
-					o.Events = append(o.Events, name)
-					if snapshot {
-						o.Ran++
-						o.snapshot(a, all)
-					}
-					switch b.Kind {
-					case BehPanic:
-						pv := &PanicValue{Hook: name}
-						o.PanVals[name] = pv
-						panic(pv)
-					case BehExit:
-						cli.Exit(b.Code)
-					}
-				}
-			}
-			c.Before = hook("B", t.Before, false)
-			c.Action = hook("ACT", t.Action, true)
-			c.After = hook("A", t.After, false)
-			for _, k := range t.Kids {
-				k := k
-				c.Command(strings.Join(k.Aliases, " "), "d", func(sc *cli.Cmd) { build(sc, k) })
-			}
-		}
-		build(app.Cmd, a.Root)
 		o.Err = app.Run(append([]string{a.Root.Aliases[0]}, argv...))
 		o.Events = append(o.Events, "RET")
 	}()
@@ -492,3 +499,51 @@ func CompileSpec(spec string, sub bool) (out SpecOutcome) {
 
 // Tokenize exposes the spec lexer through the hook
 func Tokenize(spec string) ([]cli.VerifToken, int, error) { return cli.VerifTokenize(spec) }
+
+// Built is an application that was declared but not run yet (Shared semantics: no package-level stub is touched)
+type Built struct {
+	a        *App
+	app      *cli.Cli
+	o        *Obs
+	all      map[int]*recs
+	BuildPan interface{}
+}
+
+// Build declares the application now; Run runs it later. Used to interleave the construction and the execution of
+// several applications (C20).
+func Build(a *App) *Built {
+	b := &Built{a: a, o: &Obs{Bind: map[int]Binding{}, SetBy: map[int]map[string]bool{}, PanVals: map[string]*PanicValue{}}}
+	func() {
+		defer func() { b.BuildPan = recover() }()
+		var unused []string
+		b.app, b.all = buildApp(a, b.o, &unused)
+	}()
+	return b
+}
+
+// Run runs a Built application once
+func (b *Built) Run(argv []string) *Obs {
+	o := b.o
+	if b.BuildPan != nil {
+		o.Pan = b.BuildPan
+		return o
+	}
+	done := make(chan struct{})
+	go func() {
+		defer close(done)
+		defer func() {
+			if v := recover(); v != nil {
+				if pos, in, ok := cli.VerifParseErrorPos(v); ok {
+					o.SpecErr = &SpecErr{Pos: pos, Input: in, Text: fmt.Sprint(v)}
+					return
+				}
+				o.Pan = v
+			}
+		}()
+		defer func() { o.Final = finalBind(b.all) }()
+		o.Err = b.app.Run(append([]string{b.a.Root.Aliases[0]}, argv...))
+		o.Events = append(o.Events, "RET")
+	}()
+	<-done
+	return o
+}
